@@ -85,6 +85,13 @@ func state(c *core.Ctx, cp *crcPkg) {
 	calls := core.Calls(write.Decl.Body, info, func(_ *ast.CallExpr, o types.Object) bool { return o == st.Obj })
 	wkey := key("Write-continues")
 	switch {
+	case st.Obj == write.Obj && wparam != nil && len(calls) == 0:
+		// the byte loop lives in Write itself (R2.step/<fn>/loop ties it to Write's argument)
+		if core.FieldOf(info, lhs) == cp.field || localCopyOf(info, st, lhs, cp.field) {
+			c.Okf("R2.state", wkey, write.Decl.Pos(), "Write applies the step itself, updating the running field in place (digest independent of chunking)")
+		} else {
+			c.Undecidedf("R2.state", wkey, write.Decl.Pos(), "cannot see that the step in Write starts from and ends in the running field")
+		}
 	case len(calls) != 1 || wparam == nil:
 		c.Undecidedf("R2.state", wkey, write.Decl.Pos(), "Write does not call the step function exactly once")
 	case core.FieldOf(info, lhs) == cp.field || localCopyOf(info, st, lhs, cp.field): // method updating the field in place (possibly through a local copy)
@@ -397,14 +404,36 @@ func localCopyOf(info *types.Info, st *core.Fn, lhs ast.Expr, field *types.Var) 
 		return false
 	}
 	// top-level shape: ..., load, loop, store as the last statement; no return anywhere
+	// (a closing top-level return after the store is not part of the shape)
+	list := st.Decl.Body.List
+	var closing ast.Stmt
+	if n := len(list); n > 0 {
+		if r, ok := list[n-1].(*ast.ReturnStmt); ok {
+			closing, list = r, list[:n-1]
+			for _, res := range r.Results {
+				ast.Inspect(res, func(m ast.Node) bool {
+					if _, isCall := m.(*ast.CallExpr); isCall {
+						if tv, isT := info.Types[m.(*ast.CallExpr).Fun]; !isT || !tv.IsType() {
+							if b, isB := core.Callee(info, m.(*ast.CallExpr)).(*types.Builtin); !isB || b.Name() != "len" {
+								closing = nil // the result is computed by a call: not followed
+							}
+						}
+					}
+					return true
+				})
+			}
+			if closing == nil {
+				return false
+			}
+		}
+	}
 	hasRet := false
 	ast.Inspect(st.Decl.Body, func(n ast.Node) bool {
-		if _, ok := n.(*ast.ReturnStmt); ok {
+		if r, ok := n.(*ast.ReturnStmt); ok && ast.Stmt(r) != closing {
 			hasRet = true
 		}
 		return true
 	})
-	list := st.Decl.Body.List
 	if hasRet || len(list) < 3 {
 		return false
 	}
